@@ -404,6 +404,11 @@ class DefUse:
                          {"path": path} if path else None,
                          slot=(slot, path, target.id))
             env[target.id] = frozenset({d})
+            # a re-bound name no longer has the attribute values recorded
+            # for the previous object
+            pre = target.id + "."
+            for k in [k for k in env if k.startswith(pre)]:
+                del env[k]
             self._register(stmt, d)
         elif isinstance(target, (ast.Tuple, ast.List)):
             for i, t in enumerate(target.elts):
@@ -435,7 +440,10 @@ class DefUse:
                              slot=(slot, path, "setattr", target.attr))
                 env[key] = frozenset({d})
                 self._register(stmt, d)
-                self.attr_stores.append((root.id, target.attr, value, stmt))
+                rec = (root.id, target.attr, value, stmt)
+                if not any(r[3] is stmt and r[1] == target.attr
+                           for r in self.attr_stores):
+                    self.attr_stores.append(rec)
         elif isinstance(target, ast.Starred):
             self._bind_target(target.value, value, env, kind, stmt, path, slot)
 
